@@ -281,11 +281,34 @@ def target_body(case, rec):
     if case['flip']:
         v0, v1 = v1, v0
     mesh = make(dom)
-    if case.get('pre'):
+    if case.get('pre') or case.get('first'):
         # targeting on a mesh with history: legitimate as long as no leaf along the segment is already finer than it
-        mesh, _, defect = apply_seq(dom, case['pre'])
-        if defect:
-            return
+        if case.get('pre'):
+            mesh, _, defect = apply_seq(dom, case['pre'])
+            if defect:
+                return
+        if case.get('first'):
+            # an earlier targeting of another segment on the same mesh object (the second must still work where the mesh
+            # is not already finer than its segment)
+            f = case['first']
+            p2, q2 = segment_points(dom, f[0] % len(PIECES[dom]), f[1], f[2] % (1 << f[1]))
+            seg1 = unit / (1 << f[1])
+            lo1, hi1 = (min(p2[0], q2[0]), min(p2[1], q2[1])), (max(p2[0], q2[0]), max(p2[1], q2[1]))
+            for e in mesh.leaf_elements:
+                xs1 = [float(v.x) for v in e.vertices]
+                ys1 = [float(v.y) for v in e.vertices]
+                if min(xs1) <= hi1[0] + 1e-9 and max(xs1) >= lo1[0] - 1e-9 and min(ys1) <= hi1[1] + 1e-9 and \
+                        max(ys1) >= lo1[1] - 1e-9 and e.diam < seg1 * (1 - 1e-9):
+                    rec.exclude('mesh_already_finer_than_segment')
+                    return
+            try:
+                with repo.quiet():
+                    mesh.refine_msh_bdr(p2, q2)
+            except Exception as ex:
+                if exc_site(ex) == 'harness':
+                    raise
+                rec.violation('C16/target/exception_first_call/%s' % type(ex).__name__, {'error': repr(ex)}, case)
+                return
         seg = unit / (1 << l)
         for e in mesh.leaf_elements:
             xs = [float(v.x) for v in e.vertices]
@@ -400,7 +423,8 @@ def run(ctx):
     pre = st.fixed_dictionaries({'kind': st.just('target'), 'dom': st.sampled_from(list(DOMAINS)), 'piece': st.integers(0, 7),
                                  'l': st.integers(1, 8), 'k': st.integers(0, 10**6), 'flip': st.booleans(),
                                  'form': st.sampled_from(['tuple', 'list', 'array', 'pipeline']),
-                                 'pre': st.lists(st.integers(0, 10**6), min_size=1, max_size=12)}).map(
+                                 'pre': st.one_of(st.just([]), st.lists(st.integers(0, 10**6), min_size=1, max_size=12)),
+                                 'first': st.one_of(st.none(), st.tuples(st.integers(0, 7), st.integers(0, 6), st.integers(0, 10**6)).map(list))}).map(
         lambda c: dict(c, piece=c['piece'] % len(PIECES[c['dom']]), k=c['k'] % (1 << c['l'])))
     explore(ctx, pre, body, ctx.share(1600 if ctx.quick else 20000), salt=1)
     cases = st.fixed_dictionaries({'kind': st.just('seq'), 'dom': st.sampled_from(list(DOMAINS)),
